@@ -7,7 +7,9 @@ Structural clauses decided on the MIR of every function that takes the load lock
  (b) no false loop errors: every success path from the point where the lock is held to
      the function's normal return passes unlock_loading for that file, and lock/unlock
      use the same key expression of the file;
- (c) canonical key: the name under which a file is locked passes a path-normalising step.
+ (c) canonical key: the name under which a file is locked passes a path-normalising step;
+ (d) no unlocked hand-out: find_file (and any helper it is split into) returns a loaded file only
+     on paths that passed lock_loading.
 """
 from lib import mir, sym, cfgutil
 from rules.loadlock import lock_users, LockUser, ends, FIND_FILE, LOCK, UNLOCK, PARSE, HANDLERS, LOAD_MODULE, SOURCEFILE_TY
@@ -108,6 +110,7 @@ def run(ctx, F):
                             ctx.ok("F3-lock-spans-evaluation", tag, {"parse": pb, "handler": h})
             if not evaluated:
                 ctx.fail("anchor-lost", tag + "|evaluation", "no handle_parsed call consumes the parsed root file in this function", where=b.where(lock_bi))
+    acquirers_always_lock(ctx, prog, S)
     ctx.floor("find_file call sites", n_find, 4)
     ctx.floor("unlock_loading call sites", n_unlock, 5)
     ctx.floor("direct lock_loading call sites (root file)", n_lock, 1)
@@ -115,6 +118,46 @@ def run(ctx, F):
                        "all success paths to return pass unlock_loading(file); parsed body consumed by a handler (or by the load_module closure) before unlock and never returned; "
                        "lock/unlock key terms equal after stripping identity conversions; canonical-key clause = a path-normalising call on the name's provenance. "
                        "Termination argument: with (a)-(c) the locked set is finite and each recursive load either hits the lock or descends an acyclic graph.")
+
+
+def acquirers_always_lock(ctx, prog, S):
+    """(d) no unlocked hand-out: in every function that hands a loaded file to its caller (find_file and its
+    helpers — the acquirers of rules/loadlock.py) a SourceFile is put into the return value only on paths
+    that passed a lock acquisition; a shortcut (cache hit, fast path) that returns a file without
+    lock_loading lets a cycle through that file recurse without a loop error."""
+    from rules.loadlock import acquirers
+    acq = acquirers(prog)
+    n = 0
+    for d in sorted(acq):
+        if ends(d, LOCK):
+            continue
+        b = prog.bodies[d]
+        dom = b.dominators()
+        # success edges of the acquisitions made in this body
+        held = []
+        for bi, t in b.calls():
+            if mir.callee_name(t) in acq:
+                tt = cfgutil.try_targets(b, bi)
+                held.append(tt[0] if tt else t.get("target"))
+        wraps = []
+        for bi, si, st in b.stmts():
+            if st["k"] != "assign" or st["rv"]["k"] != "agg":
+                continue
+            rv = st["rv"]
+            if not (rv.get("adt", "").endswith("option::Option") and rv.get("variant") == "Some" or rv.get("adt", "").endswith("result::Result") and rv.get("variant") == "Ok"):
+                continue
+            for o in rv["ops"]:
+                if o["k"] in ("copy", "move") and not o["p"][1] and b.local_ty(o["p"][0]) == SOURCEFILE_TY:
+                    wraps.append(bi)
+        for w in sorted(set(wraps)):
+            n += 1
+            key = f"{mir.short(d)}|hands out a SourceFile"
+            if any(h is not None and (h in dom.get(w, ()) or h == w) for h in held):
+                ctx.ok("F3-hand-out-locked", key, None)
+            else:
+                ctx.fail("F3-hand-out-locked", key, f"{mir.short(d)} can return a loaded file on a path that did not pass lock_loading (a cache hit or fast path): "
+                         "loading that file again from inside its own body is then not detected as a loop and recurses until the stack overflows", where=b.where(w))
+    ctx.floor("hand-outs of a SourceFile by lock acquirers", n, 1)
 
 
 def derives(body, operand, call_bi):
